@@ -544,6 +544,13 @@ func genSigner(r *vlib.R, z *zone) name {
 // signableNsec: miekg's signer (the harness signs with it) takes every owner whose
 // text starts with '*' for a wildcard and lowers the RRSIG Labels field, which is
 // wrong for a label like "**" or "*a"; sets with such owners are not signed.
+func ansVariant(r *vlib.R) string {
+	if r.Chance(4, 5) {
+		return "good"
+	}
+	return vlib.Pick(r, []string{"cd", "badsig"})
+}
+
 func signableNsec(set []rec) bool {
 	for _, rc := range set {
 		if len(rc.owner) > 0 && len(rc.owner[0]) > 1 && rc.owner[0][0] == '*' {
@@ -659,12 +666,33 @@ func genNsecCase(r *vlib.R, emit func(string)) int {
 		}
 		if r.Chance(1, 2) {
 			gs := genWildSigs(r, z)
+			cur := set
 			if r.Chance(3, 4) {
-				emit("z set " + recsStr(wildSet(r, z, gs)))
+				cur = wildSet(r, z, gs)
+				if r.Chance(1, 3) && len(z.apex) > 0 {
+					// a record of ANOTHER zone whose span takes in the whole name space of this one
+					// (the parent's NSEC around the delegation, a sibling's last record): nothing
+					// signs it for this zone, it must not serve as the next-closer denial
+					par := z.apex.parent()
+					o := par
+					if r.Bool() {
+						o = par.child(z.apex[0][:len(z.apex[0])-1] + "!")
+						if z.apex[0][:len(z.apex[0])-1] == "" {
+							o = par.child("!")
+						}
+					}
+					cur = append(cur, rec{owner: o, next: par.child(z.apex[0] + "0"), cls: 1, types: authTypes(tNS)})
+				}
+				emit("z set " + recsStr(cur))
 				cnt++
 			}
 			emit(fmt.Sprintf("z wild %s %s", genSigner(r, z), ansSigsStr(gs)))
 			cnt++
+			if signableAns(gs) && signableNsec(cur) && r.Chance(2, 3) {
+				// the same answer, really signed, through the real Resolver.answer
+				emit(fmt.Sprintf("z ans %s %s %s", genSigner(r, z), ansSigsStr(gs), ansVariant(r)))
+				cnt++
+			}
 		}
 	}
 	// unsigned responses at / below the zone's delegation points (secure and insecure ones) and
@@ -835,7 +863,22 @@ func authWitnessOps() []string {
 		"z auth example www.example 46 nx good",
 		"z auth example nope.example 46 nx good",
 		"z auth example nope.example 1 nx nodsig",
-		"z auth example nope.example 1 nx insec")
+		"z auth example nope.example 1 nx insec",
+		// the real Resolver.answer on wildcard expansions (really signed under *.example, presented under the owner):
+		"z new example 1 example:2,6,46,47,48;*.example:1,46,47;www.example:1,46,47;a.b.example:1,46,47",
+		// only a record of ANOTHER zone spans the next closer name: nothing authenticated it, no denial
+		"z set .|example0|1|2,46,47",
+		"z ans example www.example:1 good",
+		"z ans example alias.example:1 good",
+		// the zone's own denial
+		"z set *.example|a.b.example|1|1,46,47;a.b.example|www.example|1|1,46,47;.|example0|1|2,46,47",
+		"z ans example alias.example:1 good",
+		"z ans example www.example:1 good",
+		// an owner that itself starts with `*`, two labels below the wildcard's parent: an expansion like any other
+		"z ans example *.b.example:1 good",
+		"z ans example *.www.example:1 good",
+		"z ans example alias.example:1 badsig",
+		"z ans example alias.example:1 cd")
 	return out
 }
 
